@@ -594,6 +594,13 @@ class ttensor:
         elif not isinstance(samples, Sequence):
             samples = [samples]
 
+        modes = np.asarray(modes)
+        if (
+            np.any(modes < 0)
+            or np.any(modes >= self.ndims)
+            or np.unique(modes).size != modes.size
+        ):
+            raise ValueError(f"Modes must be distinct modes of the tensor: {modes}")
         unequal_lengths = len(samples) > 0 and len(samples) != len(modes)
         if unequal_lengths:
             raise ValueError(
